@@ -1,4 +1,5 @@
 import Bt.Driver.Engine
+import Bt.Driver.Risk
 import Bt.Driver.Report
 import Bt.Driver.Weigh
 import Bt.Driver.Select
@@ -21,6 +22,7 @@ def dispatch (line : String) : String :=
   | "select" :: _ => handleSelect (l.drop 7).toString
   | "weigh" :: _ => handleWeigh (l.drop 6).toString
   | "report" :: _ => handleReport (l.drop 7).toString
+  | "risk" :: _ => handleRisk (l.drop 5).toString
   | _ => "bad unknown-request"
 
 partial def loop (h : IO.FS.Stream) (out : IO.FS.Stream) : IO Unit := do
